@@ -91,6 +91,7 @@ def step (s : State) : Op → Result
   | .release c n => releaseName s c n
   | .getOwner c n => getNameOwner s c n
   | .listQueued c n => listQueuedOwners s c n
+  | .other _ => .ok (s, [])
 
 /-- The queue of name `n`, the connected set and the events of the last step after a history
 (`none` if Python raised). -/
